@@ -27,6 +27,32 @@ def ops : List (String × Op) := [
       let qs ← pInt; let qe ← pInt; let fs ← pInt; let fe ← pInt; let f ← pFmt
       match bins qs qe f false, bins fs fe f true with
       | .ok (.many S), .ok (.one b) => pure s!"ok {showBool (S.mem b)}"
-      | _, _ => pure "err TypeError")
+      | _, _ => pure "err TypeError"),
+  -- the bin stored on an interval object at construction: bins(start, end, fmt="bed")
+  ("objbin", do
+      let _kind ← tok; let s ← pInt; let e ← pInt
+      pure (showBins (bins s e .bed true))),
+  -- `_query_by_position` on children given as lists of member spans (pure-Python branch)
+  ("bquery", do
+      let cw ← pBool; let qs ← pInt; let qe ← pInt
+      let kids ← pList (do let _k ← tok; pList pIntPair)
+      -- `if completely_within and start and end` (Python truthiness of ints)
+      let useBins := cw && qs != 0 && qe != 0
+      let myBins : Option RangeSet :=
+        if useBins then (match bins qs qe .bed false with | .ok (.many S) => some S | _ => none) else none
+      let keep (members : List (Int × Int)) : Bool :=
+        match members with
+        | [] => false
+        | m :: ms =>
+          let cs := ms.foldl (fun a x => min a x.1) m.1
+          let ce := ms.foldl (fun a x => max a x.2) m.2
+          let binOk := match myBins with
+            | none => true
+            | some S => members.any (fun x => match bins x.1 x.2 .bed true with | .ok (.one b) => S.mem b | _ => false)
+          -- contains(full_span) / has_overlap(full_span) of the query interval against the child span
+          let spanOk := if cw then decide (qs ≤ cs ∧ ce ≤ qe ∧ cs < ce ∧ qs < qe) else decide (cs < qe ∧ qs < ce ∧ cs < ce ∧ qs < qe)
+          binOk && spanOk
+      let idx := (List.range kids.length).filter (fun i => match kids[i]? with | some m => keep m | none => false)
+      pure ("ok " ++ " ".intercalate (idx.map toString)))
 ]
 end BioCantor.Driver.Bins
